@@ -30,7 +30,7 @@ def run_case(tape, tier):
     feat["kbint_sleep"] = False
     feat["allow_empty"] = True
     feat["manual_step"] = False      # both runs go through the scheduler's own entry points
-    feat["T"] = list(feat["T"]) + [0.0]    # tock 0.0: run everything as soon as possible, tyme stands still
+    feat["T"] = list(feat["T"]) + [0.0, 100000.0]    # tock 0.0: as soon as possible, tyme stands still; a tock of more than a day
     prog = sched.gen_program(tape, feat)
     nnoise = tape.draw("nnoise", 4)
     noise = []
